@@ -43,7 +43,9 @@ def family(e):
 # ---------------------------------------------------------------------------
 TARGETS = ['scalar_f', 'scalar_i', 'scalar_u', 'scalar_d', 'scalar0_d', 'vector', 'pair_d', 'matrix', 'bool', 'vector3',
            # class-specific operator overrides (Matrix3.__mul__/__imul__, Quaternion products, Polynomial ring, shape ())
-           'matrix3', 'quaternion', 'polynomial', 'scalar0', 'vector0_d', 'bool0']
+           'matrix3', 'quaternion', 'polynomial', 'scalar0', 'vector0_d', 'bool0',
+           # a writable object whose mask array cannot be written (a mask with fewer axes is broadcast by the constructor)
+           'scalar_bmask', 'vector_bmask']
 
 
 def make_target(name, Pm, readonly=False):
@@ -85,6 +87,10 @@ def make_target(name, Pm, readonly=False):
         x.insert_deriv('t', Pm.Vector(A([4., 5., 6.])))
     elif name == 'bool0':
         x = Pm.Boolean(True)
+    elif name == 'scalar_bmask':
+        x = Pm.Scalar(np.arange(6.).reshape(2, 3) + 1., A([False, True, False]))
+    elif name == 'vector_bmask':
+        x = Pm.Vector(np.arange(12.).reshape(2, 2, 3) + 1., A([False, True]))
     else:
         raise ValueError(name)
     if readonly:
@@ -427,6 +433,15 @@ def option_calls(Pm):
         ('cast classes', lambda: Pm.Vector(A([1., 2., 3.])).cast((Pm.Vector3, Pm.Pair))),
         ('reshape recursive=False', lambda: sd().reshape((3, 1), recursive=False)),
         ('roll_axis rank', lambda: S(np.arange(6.).reshape(2, 3)).roll_axis(1, 0, rank=3)),
+        # unusable index objects must be IndexError, for reading and for assignment
+        ('getitem base-class index with items', lambda: S(A([1., 2., 3.]))[Pm.Qube(A([0, 1]), nrank=1)]),
+        ('getitem tuple with base-class index', lambda: S(np.arange(6.).reshape(2, 3))[(0, Pm.Qube(A([0, 1]), nrank=1))]),
+        ('setitem base-class index with items', lambda: S(A([1., 2., 3.])).__setitem__(Pm.Qube(A([0, 1]), nrank=1), 7.)),
+        ('getitem Matrix index', lambda: S(A([1., 2., 3.]))[Pm.Matrix(np.eye(2))]),
+        ('getitem float Vector index', lambda: S(np.arange(6.).reshape(2, 3))[Pm.Vector(A([0.5, 1.]))]),
+        ('getitem Quaternion index', lambda: S(A([1., 2., 3.]))[Pm.Quaternion(A([1., 0., 0., 0.]))]),
+        ('getitem dict index', lambda: S(A([1., 2., 3.]))[{'a': 1}]),
+        ('setitem string index', lambda: S(A([1., 2., 3.])).__setitem__('a', 7.)),
         ('move_axis rank', lambda: S(np.arange(6.).reshape(2, 3)).move_axis(1, 0, rank=3)),
     ]
     return calls
